@@ -219,7 +219,29 @@ func vfC02Case(rt *rapid.T, c *ev.Collector) {
 				rt.Fatalf("VIOL[c02-ephemeral-key-reused]: two server connections sent the same ephemeral key representative %x", y)
 			}
 			seenY[y] = true
-			if err := vfReleaseResponse(rt, n, wire.B, n.Pending(wire.B)-refobfs4.SeedFrameLen, "s2c", wire.A, wire.B); err != nil {
+			respLen := n.Pending(wire.B) - refobfs4.SeedFrameLen
+			// a server that speaks first: payload queued right behind response and
+			// seed frame, so that the client may hold far more than one maximum
+			// handshake when it finds the mark
+			early := 0
+			if sv.Conn() != nil && rapid.IntRange(0, 2).Draw(rt, "serverSpeaksFirst") == 0 {
+				early = rapid.SampledFrom([]int{1, 1000, 8192, 12000, 16384}).Draw(rt, "earlyLen")
+				if r, _, _ := sv.Write(vfCounterStream(1, 0, early)); r.Failed() || r.Err != nil {
+					rt.Fatalf("VIOL[c02-genuine-failed]: early server write: %s", r)
+				}
+				if rapid.Bool().Draw(rt, "shortFirstRead") {
+					// first read short (mark not in it), everything else in one segment
+					n.Release(wire.B, rapid.SampledFrom([]int{1, 32, 64, 96}).Draw(rt, "firstRead"))
+					if err := n.WaitQuiescent(wire.A, wire.B); err != nil {
+						rt.Fatalf("VIOL[c02-wedge]: %v", err)
+					}
+					n.ReleaseAll(wire.B)
+					if err := n.WaitQuiescent(wire.A, wire.B); err != nil {
+						rt.Fatalf("VIOL[c02-wedge]: %v", err)
+					}
+				}
+			}
+			if err := vfReleaseResponse(rt, n, wire.B, respLen, "s2c", wire.A, wire.B); err != nil {
 				rt.Fatalf("VIOL[c02-wedge]: %v", err)
 			}
 			for name, ep := range map[string]*drive.Endpoint{"client": cl, "server": sv} {
@@ -231,13 +253,14 @@ func vfC02Case(rt *rapid.T, c *ev.Collector) {
 				}
 			}
 			// same session keys: data flows both ways
-			m1, m2 := vfCounterStream(0, 0, 700), vfCounterStream(1, 0, 1500)
+			m1, m2 := vfCounterStream(0, 0, 700), vfCounterStream(1, early, 1500)
 			if r, _, _ := cl.Write(m1); r.Failed() || r.Err != nil {
 				rt.Fatalf("VIOL[c02-genuine-failed]: client write: %s", r)
 			}
 			if r, _, _ := sv.Write(m2); r.Failed() || r.Err != nil {
 				rt.Fatalf("VIOL[c02-genuine-failed]: server write: %s", r)
 			}
+			m2 = vfCounterStream(1, 0, early+1500)
 			n.ReleaseAll(wire.A)
 			n.ReleaseAll(wire.B)
 			if err := n.WaitQuiescent(wire.A, wire.B); err != nil {
@@ -635,7 +658,7 @@ func vfC02Case(rt *rapid.T, c *ev.Collector) {
 func TestVerifC02Scenarios(t *testing.T) {
 	vfSetup(t)
 	c := ev.For("C02")
-	c.Rule("scenarios: generated identity, node ID, seed, bridge-line form and chunk plans; scenario in {retry-after-failure (one client factory: a first attempt fails because the network fails while the handshake is written / the server stays silent / EOF, then a second connection through the same factory must complete and must not reuse the representative already sent), genuine (1-3 sequential connections, echo both ways, all ephemeral representatives distinct), interleaved-handshakes (one client and one server factory; connection 1 parked with its handshake and/or its response held at the transport while 1-4 other connections handshake from start to end; all must complete with matching keys), one bit of the client's node ID / public key flipped (real server), impostor = reference server that knows the public bridge line only (AUTH from its own key, random AUTH, AUTH of another handshake, genuine AUTH with another Y', low-order Y'), tamper = modification of a genuine response in flight (blind: one bit of Y'|AUTH|M_S|MAC_S, a padding bit, insert / delete one byte, truncate, substitute another connection's response; informed: one bit of Y'|AUTH with mark and MAC recomputed from the public bridge line) with server payload queued behind it}; every server response is released with cuts drawn relative to its fields (inside MAC_S, inside the mark, at the Y' / AUTH boundaries, inside the seed frame behind it) before generic chunk plans; oracle: genuine => Dial/WrapConn succeed and data flows; otherwise, after the exchange ends by EOF or the fired client deadline, Dial has returned an error and zero application bytes surfaced; non-trivial = any non-genuine scenario or a genuine one delivered in >= 3 segments; fingerprint = scenario + parameters")
+	c.Rule("scenarios: generated identity, node ID, seed, bridge-line form and chunk plans; scenario in {retry-after-failure (one client factory: a first attempt fails because the network fails while the handshake is written / the server stays silent / EOF, then a second connection through the same factory must complete and must not reuse the representative already sent), genuine (1-3 sequential connections, echo both ways, all ephemeral representatives distinct; in a third of them the server speaks first with up to 16384 bytes queued behind response and seed frame, optionally after a short first read), interleaved-handshakes (one client and one server factory; connection 1 parked with its handshake and/or its response held at the transport while 1-4 other connections handshake from start to end; all must complete with matching keys), one bit of the client's node ID / public key flipped (real server), impostor = reference server that knows the public bridge line only (AUTH from its own key, random AUTH, AUTH of another handshake, genuine AUTH with another Y', low-order Y'), tamper = modification of a genuine response in flight (blind: one bit of Y'|AUTH|M_S|MAC_S, a padding bit, insert / delete one byte, truncate, substitute another connection's response; informed: one bit of Y'|AUTH with mark and MAC recomputed from the public bridge line) with server payload queued behind it}; every server response is released with cuts drawn relative to its fields (inside MAC_S, inside the mark, at the Y' / AUTH boundaries, inside the seed frame behind it) before generic chunk plans; oracle: genuine => Dial/WrapConn succeed and data flows; otherwise, after the exchange ends by EOF or the fired client deadline, Dial has returned an error and zero application bytes surfaced; non-trivial = any non-genuine scenario or a genuine one delivered in >= 3 segments; fingerprint = scenario + parameters")
 	c.Assume("cryptographic strength (HMAC, X25519, SHA-256) is assumed; what is tested is that every check is wired in and bound to the right inputs")
 	for _, s := range []string{"genuine", "wrong-nodeid-bit", "wrong-pubkey-bit", "impostor", "tamper", "retry-after-failure"} {
 		c.Floor("scenario-"+s, 0.08)
